@@ -1094,7 +1094,7 @@ impl ToPrimitive for i256 {
 
             let high_negative = high < 0;
             let low_negative = low < 0;
-            let high_valid = self.high == -1 || self.high == 0;
+            let high_valid = high == -1 || high == 0;
 
             (high_negative == low_negative && high_valid).then_some(low)
         } else {
